@@ -132,4 +132,6 @@ def realize(E, m):
             else: out[label] = str(R.ev(term))
         except Unsupported as e:
             out[label] = {'unrealisable': str(e)}
+    for name, apps in E.P.g.get('uf', {}).items():
+        out['uf.' + name] = [[str(R.intval(x)), str(R.intval(r))] for x, r in apps]
     return out
